@@ -3,63 +3,80 @@
 (*                                                                            *)
 (*   _OPTIONS is a threading.local: every thread owns a dictionary            *)
 (*   option -> value that starts as the module defaults when the thread       *)
-(*   first touches it.  Public operations, one action each:                   *)
-(*     Call(t, ov)        any API call with per-call options `ov`: looks    *)
+(*   first touches it.  Option values are Python objects: the dictionary,     *)
+(*   a per-call option, the mapping returned by set_options all hold          *)
+(*   *references*.  So a value is a cell id and `heap` maps cell ids to       *)
+(*   contents; immutable values (bool, str, None, tuple) are cells nobody     *)
+(*   can write, lists / AST / FST objects (the `op` option) are cells the     *)
+(*   *user* may write (UserWrite) - and that the library must never write.    *)
+(*                                                                            *)
+(*   Public operations, one action each:                                      *)
+(*     Call(t, ov)        any API call with per-call options `ov`: looks      *)
 (*                        every option up as  ov[o] if given else store[t][o] *)
-(*                        (get_option), never writes the store                *)
-(*     SetOptions(t, m)   set_options(m): validate everything, then update; *)
+(*                        (get_option), never writes the store or the heap    *)
+(*     SetOptions(t, m)   set_options(m): validate everything, then update;   *)
 (*                        returns the previous values of the named options    *)
-(*     EnterWith(t, m)    `with options(m):`  = SetOptions + remember the   *)
+(*     EnterWith(t, m)    `with options(m):`  = SetOptions + remember the     *)
 (*                        previous values of the *named* options              *)
 (*     ExitWith(t, how)   leaving the innermost block, normally or because    *)
 (*                        the body raised: the named options get their        *)
 (*                        remembered values back (same transition for both)   *)
 (*     Spawn(t) / Die(t)  a thread starts with the module defaults / ends     *)
+(*     UserWrite(c, v)    the program mutates one of its own mutable objects  *)
+(*                        (environment, not pfst)                             *)
 (*                                                                            *)
 (* Named deviation (documented WARNING of options()): NamedOnlyRestore - only *)
 (* the options named in the `with` are restored, other options changed inside *)
 (* the block by set_options keep their values (UnnamedKept).                  *)
 (*                                                                            *)
-(* Unknown option names and invalid values are abstracted to one name         *)
-(* `Unknown` and one value `Bad`; which concrete (name, value) pairs are      *)
+(* Unknown option names are abstracted to one name `Unknown`, invalid values  *)
+(* to cells whose content is `Bad`; which concrete (name, value) pairs are    *)
 (* invalid is the documented table of options() (harness catalogue).          *)
 EXTENDS Integers, Sequences, FiniteSets, TLC
 
 CONSTANTS Threads, Main,      \* Main \in Threads : the thread that imported the module
-          Opts, Vals,         \* global option names, valid values
-          Default,            \* Opts -> Vals, module defaults
-          Bad, Unknown,       \* an invalid value, an unknown option name
+          Opts, Vals,         \* global option names, valid *contents*
+          Cells, Mutable,     \* cell ids, the ones that can be written at all
+          Heap0,              \* Cells -> contents at the start
+          Default,            \* Opts -> Cells, module defaults
+          Bad, Unknown,       \* an invalid content, an unknown option name
           MaxNest             \* Threads -> Nat, bound on open blocks per thread
 
-ASSUME Main \in Threads /\ Bad \notin Vals /\ Unknown \notin Opts
+ASSUME Main \in Threads /\ Bad \notin Vals /\ Unknown \notin Opts /\ Mutable \subseteq Cells
 
 Names   == Opts \cup {Unknown}
-AllVals == Vals \cup {Bad}
 NoMap   == <<>>
 
-Valid(m)   == \A n \in DOMAIN m : n \in Opts /\ m[n] \in Vals       \* check_options(m, all=False) passes
-Eff(s, m)  == [o \in Opts |-> IF o \in DOMAIN m THEN m[o] ELSE s[o]]   \* lookup: given value, else thread default
-Old(s, m)  == [o \in DOMAIN m |-> s[o]]                              \* what set_options returns (m valid)
-
 VARIABLES alive,     \* set of threads that exist
-          store,     \* Threads -> [Opts -> Vals]          (meaningful for alive threads)
-          blocks,    \* Threads -> Seq([saved, snap, dirty])  open `with options` blocks, innermost last
-                     \*    saved : named option -> value to restore   (what the implementation keeps)
-                     \*    snap  : whole store at entry               (ghost)
-                     \*    dirty : a set_options ran inside           (ghost)
+          store,     \* Threads -> [Opts -> Cells]         (meaningful for alive threads)
+          blocks,    \* Threads -> Seq(block)  open `with options` blocks, innermost last
+                     \*    saved  : named option -> cell to restore    (what the implementation keeps)
+                     \*    snap   : whole store at entry (cells)       (ghost)
+                     \*    snapC  : its contents at entry, a deep copy (ghost)
+                     \*    dirty  : a set_options ran inside           (ghost)
+                     \*    hdirty : the user wrote a cell inside       (ghost)
+          heap,      \* Cells -> contents
           last       \* ghost: the last action with its pre-state (kept out of the fingerprint by VIEW)
 
-NoBlock == [saved |-> NoMap, snap |-> Default, dirty |-> FALSE]
+Valid(m)   == \A n \in DOMAIN m : n \in Opts /\ heap[m[n]] \in Vals     \* check_options(m, all=False) passes
+Eff(s, m)  == [o \in Opts |-> IF o \in DOMAIN m THEN m[o] ELSE s[o]]   \* lookup: given value, else thread default
+Old(s, m)  == [o \in DOMAIN m |-> s[o]]                              \* what set_options returns (m valid)
+Cont(H, s) == [o \in DOMAIN s |-> H[s[o]]]                           \* deep view of a map of cells
+
+NoBlock == [saved |-> NoMap, snap |-> Default, snapC |-> Cont(Heap0, Default), dirty |-> FALSE, hdirty |-> FALSE]
 Rec(k, t, m, ok, how, b, eff, ret) ==
   [k |-> k, t |-> t, m |-> m, ok |-> ok, how |-> how, b |-> b, eff |-> eff, ret |-> ret,
-   pre |-> store, preB |-> blocks, preA |-> alive]
+   pre |-> store, preB |-> blocks, preA |-> alive, preH |-> heap]
+
+Last0(H) == [k |-> "init", t |-> Main, m |-> NoMap, ok |-> TRUE, how |-> "-", b |-> NoBlock, eff |-> Default,
+             ret |-> NoMap, pre |-> [t \in Threads |-> Default], preB |-> [t \in Threads |-> <<>>],
+             preA |-> {Main}, preH |-> H]
 
 Init == /\ alive = {Main}
         /\ store = [t \in Threads |-> Default]
         /\ blocks = [t \in Threads |-> <<>>]
-        /\ last = [k |-> "init", t |-> Main, m |-> NoMap, ok |-> TRUE, how |-> "-", b |-> NoBlock, eff |-> Default,
-                   ret |-> NoMap, pre |-> [t \in Threads |-> Default], preB |-> [t \in Threads |-> <<>>],
-                   preA |-> {Main}]
+        /\ heap = Heap0
+        /\ last = Last0(Heap0)
 
 (* a new thread sees the module defaults, whatever any other thread (or a    *)
 (* dead thread that had the same identity) did                                *)
@@ -68,17 +85,18 @@ Spawn(t) ==
   /\ alive' = alive \cup {t}
   /\ store' = [store EXCEPT ![t] = Default]
   /\ blocks' = [blocks EXCEPT ![t] = <<>>]
+  /\ UNCHANGED heap
   /\ last' = Rec("spawn", t, NoMap, TRUE, "-", NoBlock, Default, NoMap)
 
 Die(t) ==
   /\ t \in alive \ {Main} /\ blocks[t] = <<>>
   /\ alive' = alive \ {t}
-  /\ UNCHANGED <<store, blocks>>           \* its dictionary is garbage from now on
+  /\ UNCHANGED <<store, blocks, heap>>     \* its dictionary is garbage from now on
   /\ last' = Rec("die", t, NoMap, TRUE, "-", NoBlock, Default, NoMap)
 
 Call(t, ov) ==
   /\ t \in alive
-  /\ UNCHANGED <<alive, store, blocks>>
+  /\ UNCHANGED <<alive, store, blocks, heap>>     \* in particular the objects passed in `ov` are not written
   /\ last' = Rec("call", t, ov, Valid(ov), "-", NoBlock, IF Valid(ov) THEN Eff(store[t], ov) ELSE Default, NoMap)
 
 MarkDirty(bs) == [i \in 1..Len(bs) |-> [bs[i] EXCEPT !.dirty = TRUE]]
@@ -86,22 +104,23 @@ MarkDirty(bs) == [i \in 1..Len(bs) |-> [bs[i] EXCEPT !.dirty = TRUE]]
 SetOptions(t, m) ==
   /\ t \in alive
   /\ IF Valid(m)
-     THEN /\ store' = [store EXCEPT ![t] = Eff(@, m)]
+     THEN /\ store' = [store EXCEPT ![t] = Eff(@, m)]             \* the references are stored, nothing is copied
           /\ blocks' = [blocks EXCEPT ![t] = IF DOMAIN m = {} THEN @ ELSE MarkDirty(@)]
           /\ last' = Rec("set", t, m, TRUE, "-", NoBlock, Default, Old(store[t], m))
      ELSE /\ UNCHANGED <<store, blocks>>   \* ValueError before anything is written
           /\ last' = Rec("set", t, m, FALSE, "-", NoBlock, Default, NoMap)
-  /\ UNCHANGED alive
+  /\ UNCHANGED <<alive, heap>>
 
 EnterWith(t, m) ==
   /\ t \in alive /\ Len(blocks[t]) < MaxNest[t]
   /\ IF Valid(m)
      THEN /\ store' = [store EXCEPT ![t] = Eff(@, m)]
-          /\ blocks' = [blocks EXCEPT ![t] = Append(@, [saved |-> Old(store[t], m), snap |-> store[t], dirty |-> FALSE])]
+          /\ blocks' = [blocks EXCEPT ![t] = Append(@, [saved |-> Old(store[t], m), snap |-> store[t],
+                                                        snapC |-> Cont(heap, store[t]), dirty |-> FALSE, hdirty |-> FALSE])]
           /\ last' = Rec("enter", t, m, TRUE, "-", NoBlock, Default, Old(store[t], m))
      ELSE /\ UNCHANGED <<store, blocks>>   \* the block is not entered at all
           /\ last' = Rec("enter", t, m, FALSE, "-", NoBlock, Default, NoMap)
-  /\ UNCHANGED alive
+  /\ UNCHANGED <<alive, heap>>
 
 ExitWith(t, how) ==
   /\ t \in alive /\ blocks[t] # <<>>
@@ -109,64 +128,88 @@ ExitWith(t, how) ==
        /\ store' = [store EXCEPT ![t] = Eff(@, b.saved)]        \* NamedOnlyRestore
        /\ blocks' = [blocks EXCEPT ![t] = SubSeq(@, 1, Len(@) - 1)]
        /\ last' = Rec("exit", t, NoMap, TRUE, how, b, Default, NoMap)
-  /\ UNCHANGED alive
+  /\ UNCHANGED <<alive, heap>>
+
+(* environment: the program changes the contents of one of its own mutable    *)
+(* objects (which the store, a block or a later call may alias)               *)
+UserWrite(c, v) ==
+  /\ c \in Mutable /\ v \in Vals /\ heap[c] # v
+  /\ heap' = [heap EXCEPT ![c] = v]
+  /\ blocks' = [t \in Threads |-> [i \in 1..Len(blocks[t]) |-> [blocks[t][i] EXCEPT !.hdirty = TRUE]]]
+  /\ UNCHANGED <<alive, store>>
+  /\ last' = Rec("write", Main, NoMap, TRUE, "-", NoBlock, Default, NoMap)
 
 (* The closed system (an environment that passes every map of at most MaxMap  *)
 (* entries) is OptionsMC.tla; this module is also instantiated on recorded    *)
 (* executions by OptionsTrace.tla and composed with the registry in Threads.  *)
-vars == <<alive, store, blocks, last>>
-View == <<alive, store, blocks>>
+vars == <<alive, store, blocks, heap, last>>
+View == <<alive, store, blocks, heap>>
 
 (* ---- what C20 states about the store ------------------------------------ *)
 (* Each law is written over L (a record of the action just taken with its     *)
-(* pre-state, i.e. `last`) and a *candidate* post-store `s` of the acting     *)
-(* thread, so that                                                            *)
-(* the same formula serves as an invariant of this model (s = the model's     *)
-(* store) and as a conformance clause of OptionsTrace.tla (s = what           *)
-(* FST.get_options() answered in that thread).                                *)
+(* pre-state, i.e. `last`) and a candidate *deep* post-store `s` of the       *)
+(* acting thread (option -> contents), so that the same formula serves as an  *)
+(* invariant of this model (s = Cont(heap, store[t])) and as a conformance    *)
+(* clause of OptionsTrace.tla (s = a deep snapshot of what FST.get_options()  *)
+(* answered in that thread).                                                  *)
 TypeOK == /\ alive \subseteq Threads /\ Main \in alive
-          /\ \A t \in Threads : store[t] \in [Opts -> Vals] /\ Len(blocks[t]) <= MaxNest[t]
+          /\ \A t \in Threads : store[t] \in [Opts -> Cells] /\ Len(blocks[t]) <= MaxNest[t]
+          /\ \A t \in alive, o \in Opts : heap[store[t][o]] \in Vals
 
-Pre(L) == L.pre[L.t]
+Pre(L)  == L.pre[L.t]
+PreC(L) == Cont(L.preH, Pre(L))
+Api(L)  == L.k \in {"spawn", "die", "call", "set", "enter", "exit"}
+
+(* pfst never writes an option value: not the ones passed to a call, not the  *)
+(* ones held as defaults, not the ones remembered by a block                  *)
+HeapUntouchedAt(L, c, x) == Api(L) => x = L.preH[c]                 \* one cell: its contents after the step
+HeapUntouchedOn(L, H)    == \A c \in DOMAIN L.preH : HeapUntouchedAt(L, c, H[c])
 
 (* an option passed to a call affects only that call: the store is untouched, *)
 (* and the value the call sees is the given one, else the thread's default    *)
-CallStoreOn(L, s)  == L.k = "call" => s = Pre(L)
+CallStoreOn(L, s)  == L.k = "call" => s = PreC(L)
 CallEffOn(L, eff)  == (L.k = "call" /\ L.ok) =>
-                     \A o \in Opts : eff[o] = IF o \in DOMAIN L.m THEN L.m[o] ELSE Pre(L)[o]
+                        \A o \in Opts : eff[o] = L.preH[IF o \in DOMAIN L.m THEN L.m[o] ELSE Pre(L)[o]]
 
 (* unknown options or invalid values are rejected before anything is changed  *)
-Rejected(m)          == \E n \in DOMAIN m : n \notin Opts \/ m[n] \notin Vals
-RejectRaisedOn(L, ok)   == L.k \in {"call", "set", "enter"} => (ok = ~Rejected(L.m))
-RejectStoreOn(L, ok, s) == (L.k \in {"call", "set", "enter"} /\ ~ok) => s = Pre(L)
+Rejected(H, m)          == \E n \in DOMAIN m : n \notin Opts \/ H[m[n]] \notin Vals
+RejectRaisedOn(L, ok)   == L.k \in {"call", "set", "enter"} => (ok = ~Rejected(L.preH, L.m))
+RejectStoreOn(L, ok, s) == (L.k \in {"call", "set", "enter"} /\ ~ok) => s = PreC(L)
 
 (* accepted set_options / options(): exactly the named options change, to the given values; the old ones are returned *)
 SetStoreOn(L, s) == (L.k \in {"set", "enter"} /\ L.ok) =>
-                   \A o \in Opts : s[o] = IF o \in DOMAIN L.m THEN L.m[o] ELSE Pre(L)[o]
+                      \A o \in Opts : s[o] = L.preH[IF o \in DOMAIN L.m THEN L.m[o] ELSE Pre(L)[o]]
 SetRetOn(L, ret) == (L.k \in {"set", "enter"} /\ L.ok) =>
-                   DOMAIN ret = DOMAIN L.m /\ \A o \in DOMAIN L.m : ret[o] = Pre(L)[o]
+                      DOMAIN ret = DOMAIN L.m /\ \A o \in DOMAIN L.m : ret[o] = PreC(L)[o]
 
-(* options set through options() are restored exactly on exit, also when the block raises (`how` plays no role) *)
-RestoreOn(L, s)     == L.k = "exit" => \A o \in DOMAIN L.b.saved : s[o] = L.b.snap[o]
+(* options set through options() are restored exactly on exit, also when the block raises (`how` plays no role): *)
+(* deep-equal to the snapshot taken at entry unless the user wrote a cell meanwhile (then: the same object)       *)
+RestoreOn(L, s)     == L.k = "exit" =>
+                         \A o \in DOMAIN L.b.saved : s[o] = IF L.b.hdirty THEN L.preH[L.b.snap[o]] ELSE L.b.snapC[o]
 (* NamedOnlyRestore, the documented WARNING of options() *)
-UnnamedKeptOn(L, s) == L.k = "exit" => \A o \in Opts \ DOMAIN L.b.saved : s[o] = Pre(L)[o]
-(* a block in which set_options was never called leaves the whole store as it found it (any nesting) *)
-BlockTransparentOn(L, s) == (L.k = "exit" /\ ~L.b.dirty) => s = L.b.snap
+UnnamedKeptOn(L, s) == L.k = "exit" => \A o \in Opts \ DOMAIN L.b.saved : s[o] = PreC(L)[o]
+(* a block in which neither set_options was called nor an object written leaves the whole store as it found it *)
+BlockTransparentOn(L, s) == (L.k = "exit" /\ ~L.b.dirty /\ ~L.b.hdirty) => s = L.b.snapC
 
-(* nothing a thread does is visible in another thread: S = stores of the other threads after the step *)
-ThreadIsolationOn(L, S) == \A u \in DOMAIN S : u # L.t => S[u] = L.pre[u]
+(* nothing a thread does is visible in another thread: S = deep stores of the other threads after the step *)
+ThreadIsolationOn(L, S) == Api(L) => \A u \in DOMAIN S : u # L.t => S[u] = Cont(L.preH, L.pre[u])
 (* a new thread starts from the module defaults *)
-FreshOn(L, s) == L.k = "spawn" => s = Default
+FreshOn(L, s) == L.k = "spawn" => s = Cont(L.preH, Default)
 
-Mine == store[last.t]
-CallIsolation       == CallStoreOn(last, Mine) /\ CallEffOn(last, last.eff) /\ (last.k = "call" => blocks = last.preB)
+Mine == Cont(heap, store[last.t])
+HeapUntouched       == HeapUntouchedOn(last, heap)
+CallIsolation       == CallStoreOn(last, Mine) /\ CallEffOn(last, Cont(heap, last.eff)) /\
+                       (last.k = "call" => blocks = last.preB /\ store = last.pre)
 RejectAtomic        == RejectRaisedOn(last, last.ok) /\ RejectStoreOn(last, last.ok, Mine) /\
-                       ((last.k \in {"call", "set", "enter"} /\ ~last.ok) => blocks = last.preB)
-SetExact            == SetStoreOn(last, Mine) /\ SetRetOn(last, last.ret)
-Restore             == RestoreOn(last, Mine)
+                       ((last.k \in {"call", "set", "enter"} /\ ~last.ok) => blocks = last.preB /\ store = last.pre)
+SetExact            == SetStoreOn(last, Mine) /\ SetRetOn(last, Cont(heap, last.ret))
+Restore             == RestoreOn(last, Mine) /\
+                       (last.k = "exit" => \A o \in DOMAIN last.b.saved : store[last.t][o] = last.b.snap[o])
 UnnamedKept         == UnnamedKeptOn(last, Mine)
 BlockTransparent    == BlockTransparentOn(last, Mine)
-ThreadIsolation     == ThreadIsolationOn(last, store) /\ \A u \in Threads \ {last.t} : blocks[u] = last.preB[u]
+ThreadIsolation     == /\ ThreadIsolationOn(last, [u \in Threads |-> Cont(heap, store[u])])
+                       /\ \A u \in Threads \ {last.t} : store[u] = last.pre[u]
+                       /\ Api(last) => \A u \in Threads \ {last.t} : blocks[u] = last.preB[u]
 FreshThreadDefaults == FreshOn(last, Mine) /\ (last.k = "spawn" => blocks[last.t] = <<>>)
 
 SavedIsEntry ==
